@@ -79,3 +79,44 @@ impl Drop for Arena {
         }
     }
 }
+
+/// One read/write page at a low fixed address (0x10000), with the following page
+/// unmapped. A haystack placed here has a numerically small end address, which
+/// is what it takes to make `end.sub(n)` wrap for a large `n`.
+pub struct LowPage {
+    base: *mut u8,
+}
+
+const MAP_FIXED_NOREPLACE: c_int = 0x100000;
+pub const LOW_ADDR: usize = 0x10000;
+
+impl LowPage {
+    pub fn new() -> Option<LowPage> {
+        unsafe {
+            let p = mmap(LOW_ADDR as *mut c_void, PAGE, PROT_READ | PROT_WRITE,
+                         MAP_PRIVATE | MAP_ANONYMOUS | MAP_FIXED_NOREPLACE, -1, 0);
+            if p as isize == -1 || p as usize != LOW_ADDR {
+                if p as isize != -1 {
+                    munmap(p, PAGE);
+                }
+                return None;
+            }
+            Some(LowPage { base: p as *mut u8 })
+        }
+    }
+    pub fn place<'a>(&'a self, bytes: &[u8]) -> &'a [u8] {
+        assert!(bytes.len() <= PAGE);
+        unsafe {
+            core::ptr::copy_nonoverlapping(bytes.as_ptr(), self.base, bytes.len());
+            core::slice::from_raw_parts(self.base, bytes.len())
+        }
+    }
+}
+
+impl Drop for LowPage {
+    fn drop(&mut self) {
+        unsafe {
+            munmap(self.base as *mut c_void, PAGE);
+        }
+    }
+}
